@@ -11,13 +11,6 @@ WORLDS = {
 
 // SetDevelopmentMode switches development-mode rendering (normally fixed at start-up from TEMPL_DEV_MODE).
 func SetDevelopmentMode(b bool) { developmentMode = b }
-
-// ResetWatchCache empties the development-mode literal cache (what a process restart does).
-func ResetWatchCache() {
-	watchStateMutex.Lock()
-	watchModeCache = map[string]watchState{}
-	watchStateMutex.Unlock()
-}
 '''},
         'trimpath': False,
     },
@@ -32,13 +25,6 @@ func ResetWatchCache() {
 
 // SetDevelopmentMode switches development-mode rendering (normally fixed at start-up from TEMPL_DEV_MODE).
 func SetDevelopmentMode(b bool) { developmentMode = b }
-
-// ResetWatchCache empties the development-mode literal cache (what a process restart does).
-func ResetWatchCache() {
-	watchStateMutex.Lock()
-	watchModeCache = map[string]watchState{}
-	watchStateMutex.Unlock()
-}
 ''', 'cmd/templ/generatecmd/watcher/zz_verif_export.go': '''package watcher
 
 // Loop runs the event loop (coalescing of file system events) of a watcher built with
